@@ -830,6 +830,9 @@ pub fn map_scenario(out: &mut String, rng: &mut Rng, cases: usize) {
                 }
             }
         }
+        // merge laws on the three (partially synchronised) replica states
+        writeln!(out, "ML 0 1 2").unwrap();
+        writeln!(out, "ML 1 0 2").unwrap();
         for r in 0..3 {
             for o in 0..id {
                 writeln!(out, "D {} o{}", r, o).unwrap();
